@@ -59,6 +59,23 @@ def build_step(v: int) -> bool:
     return True
 
 
+def build_rendering(v: int) -> bool:
+    """the id is written and read back byte for byte (zero padding of any width included)
+    pre: LO <= v <= HI
+    post: _
+    """
+    from bumpver import version
+    bid = "0" * Z + str(v)
+    text = v2version.format_version(BASE._replace(bid=bid), "vYYYY.BUILD")
+    if text != "v2020." + bid:
+        return False
+    try:
+        got = v2version.parse_version_info(text, "vYYYY.BUILD")
+    except version.PatternError:
+        return False
+    return got.bid == bid
+
+
 def build_second_step(v: int) -> bool:
     """ids shorter than four digits: from the first bumpver-generated value on, every step is also a string increase
     pre: LO <= v <= HI and M <= 3 and Z + M <= 3
